@@ -183,6 +183,10 @@ where
         // Validate welcome event structure per MIP-02
         Self::validate_welcome_event(rumor_event)?;
 
+        // A rumor without an id is refused before anything is stored: failing later would
+        // leave a pending group (and its relays) behind for an invitation that was rejected.
+        let rumor_event_id = rumor_event.id.ok_or(Error::MissingRumorEventId)?;
+
         if let Some(processed_welcome) = self
             .storage()
             .find_processed_welcome_by_event_id(wrapper_event_id)
@@ -277,8 +281,6 @@ where
             state: welcome_types::ProcessedWelcomeState::Processed,
             failure_reason: None,
         };
-
-        let rumor_event_id = rumor_event.id.ok_or(Error::MissingRumorEventId)?;
 
         let welcome = welcome_types::Welcome {
             id: rumor_event_id,
